@@ -35,10 +35,13 @@ pub fn child_main(args: &[String]) -> i32 {
         return 64;
     };
     // backstop against runaway memory (address space), far above any legitimate need
+    // (AddressSanitizer reserves terabytes of address space for its shadow memory)
     #[cfg(not(miri))]
-    unsafe {
-        let lim = libc::rlimit { rlim_cur: 6 << 30, rlim_max: 6 << 30 };
-        libc::setrlimit(libc::RLIMIT_AS, &lim);
+    if std::env::var_os("VERIF_NO_RLIMIT").is_none() {
+        unsafe {
+            let lim = libc::rlimit { rlim_cur: 6 << 30, rlim_max: 6 << 30 };
+            libc::setrlimit(libc::RLIMIT_AS, &lim);
+        }
     }
     crate::util::par::install_panic_hook();
     alloc::enable();
